@@ -31,7 +31,9 @@ Record tree_ok (d : doc) : Prop := {
                p < i /\ In i (n_children (get_node d p));
   t_children : forall p c, p < List.length (d_nodes d) -> In c (n_children (get_node d p)) ->
                c < List.length (d_nodes d) /\ n_parent (get_node d c) = Some p;
-  t_root : n_parent (get_node d 0) = None }.
+  t_root : n_parent (get_node d 0) = None;
+  t_hasparent : forall i, 0 < i -> i < List.length (d_nodes d) -> n_parent (get_node d i) <> None;
+  t_nodup : forall p, p < List.length (d_nodes d) -> NoDup (n_children (get_node d p)) }.
 
 Lemma empty_tree_ok : tree_ok empty_doc.
 Proof.
@@ -41,6 +43,8 @@ Proof.
   - intros i p H. assert (i = 0) by lia. subst. discriminate.
   - intros p c H. assert (p = 0) by lia. subst. simpl. tauto.
   - reflexivity.
+  - intros i H0 H. lia.
+  - intros p H. assert (p = 0) by lia. subst. constructor.
 Qed.
 
 (* setters that do not touch identity / parents / children *)
@@ -69,6 +73,8 @@ Proof.
   - intros p c Hp Hin. rewrite L in *. destruct (Hc p) as [_ [_ E]]. rewrite E in Hin.
     destruct (t_children d T p c Hp Hin) as [C1 C2]. split; [exact C1|]. destruct (Hc c) as [_ [-> _]]. exact C2.
   - destruct (Hc 0) as [_ [-> _]]. apply T.
+  - intros i H0 Hi. rewrite L in Hi. destruct (Hc i) as [_ [-> _]]. now apply T.
+  - intros p Hp. rewrite L in Hp. destruct (Hc p) as [_ [_ ->]]. now apply T.
 Qed.
 
 Lemma update_self_links (d : doc) id (f : node -> node) :
@@ -149,6 +155,22 @@ Proof.
            rewrite Hold by exact C1. destruct (Nat.eqb c p); exact C2.
     + unfold get_node. cbn [set_stages set_nodes d_nodes]. rewrite Hold by (apply T).
       destruct (Nat.eqb 0 p); [cbn [n_parent upd]|]; apply (t_root d T).
+    + intros i H0 Hi. rewrite Hlen in Hi. unfold get_node. cbn [set_stages set_nodes d_nodes].
+      destruct (Nat.eq_dec i id) as [->|Hne]; [rewrite Hnew; discriminate|].
+      rewrite Hold by lia. destruct (Nat.eqb i p); [cbn [n_parent upd]|]; apply (t_hasparent d T); unfold id in *; lia.
+    + intros q Hq. rewrite Hlen in Hq. unfold get_node. cbn [set_stages set_nodes d_nodes].
+      destruct (Nat.eq_dec q id) as [->|Hne]; [rewrite Hnew; constructor|].
+      assert (Hq' : q < id) by lia. rewrite Hold by exact Hq'.
+      destruct (Nat.eqb q p) eqn:E; [|apply (t_nodup d T); exact Hq'].
+      apply Nat.eqb_eq in E. subst q. cbn [n_children upd].
+      assert (Hnd := t_nodup d T p Hp).
+      assert (Hnot : ~ In id (n_children (get_node d p))).
+      { intros Hin. destruct (t_children d T p id Hp Hin) as [C1 _]. unfold id in C1. lia. }
+      clear -Hnd Hnot. unfold get_node in *. induction (n_children (nth p (d_nodes d) root_node)) as [|x l IH]; cbn [app].
+      * constructor; [intros []|constructor].
+      * inversion Hnd as [|? ? Hx Hl]; subst. constructor.
+        -- intros Hin. apply in_app_iff in Hin. destruct Hin as [Hin|[<-|[]]]; [contradiction|]. apply Hnot. now left.
+        -- apply IH; [exact Hl|]. intros Hin. apply Hnot. now right.
   - intros i Hi. rewrite Hold by exact Hi. destruct (Nat.eqb i p); split; reflexivity.
 Qed.
 
